@@ -37,6 +37,7 @@ class _Resource(object):
         await script.run(ws)
 
 
+_BLANKS = [' ', '\n', '', '\u2028', '\t\t', '\r\n', '\xa0', 'm7']
 _APPS = {}
 _WARMUP_CAPACITY = 7
 
@@ -87,7 +88,12 @@ async def perform(ws, op, script):
 
 def run_case(case):
     cap = case['capacity']
-    msgs = ['m%d' % i for i in range(case['k'])]
+    # payloads: ordinary texts, or (texts='blank') texts made of white space / line separators / nothing: a payload is
+    # a payload, none of them may be dropped, merged or reordered
+    if case.get('texts') == 'blank':
+        msgs = [_BLANKS[i % len(_BLANKS)] for i in range(case['k'])]
+    else:
+        msgs = ['m%d' % i for i in range(case['k'])]
     events = [{'type': 'websocket.receive', 'text': m} for m in msgs]
     if case['disconnect'] == 'bare':
         events.append({'type': 'websocket.disconnect'})  # the close code is optional in the ASGI spec
@@ -139,12 +145,19 @@ def run_case(case):
         await drain()
         check('accept')
         step = 0
-        for ch in word:
+        burst = bool(case.get('burst'))
+        for wi, ch in enumerate(word):
             if ch == 'D':
                 pm, rt = counts()
                 if cap > 0 and pm - rt >= cap:
                     notes['deliver_while_full'] = True
                 server.deliver_next()
+                if burst and wi + 1 < len(word) and word[wi + 1] == 'D':
+                    # burst: the next event reaches the server before the event loop runs again (two frames in one TCP
+                    # segment): receive() hands them over back to back, without a suspension in between
+                    step += 1
+                    notes['burst'] = True
+                    continue
             else:
                 script.allow()
             await drain()
@@ -155,6 +168,9 @@ def run_case(case):
             if task.done():
                 break
             server.deliver_next()
+            if burst and i == 0:
+                while server.deliver_next():
+                    notes['burst'] = True
             script.allow()
             await drain()
             check('flush %d' % i)
@@ -230,6 +246,10 @@ def run_case(case):
         nt = True
     if notes['cancelled']:
         labels.append('receive_cancelled')
+    if notes.get('burst'):
+        labels.append('burst_delivery')
+    if case.get('texts') == 'blank':
+        labels.append('blank_payloads')
         nt = True
     if notes['held_max'] == cap + 1 and cap > 0:
         labels.append('held=capacity+1')
@@ -271,6 +291,10 @@ class ScheduleEnum(Suite):
                             script = [OPS[i] for i in sc]
                             for w in words(nd, n):
                                 yield {'capacity': cap, 'k': k, 'disconnect': disc, 'script': script, 'word': w}
+                                if k and n <= 2 and all(o[0] == 'recv' for o in script):
+                                    yield {'capacity': cap, 'k': k, 'disconnect': disc, 'script': script, 'word': w, 'texts': 'blank'}
+                                if nd >= 2 and ('DD' in w or not w.endswith('D')):
+                                    yield {'capacity': cap, 'k': k, 'disconnect': disc, 'script': script, 'word': w, 'burst': True}
 
     def run(self, case):
         return run_case(case)
@@ -291,7 +315,8 @@ class ScheduleRandom(Suite):
     def strategy(self, tier):
         return st.builds(
             lambda cap, k, disc, script, word, sr: {'capacity': cap, 'k': k, 'disconnect': disc, 'script': script, 'word': ''.join(word),
-                                                    'server_raises': sr},
+                                                    'server_raises': sr, 'texts': 'blank' if (k + len(script)) % 4 == 0 else None,
+                                                    'burst': (k + len(word)) % 3 == 0},
             st.sampled_from([0, 1, 1, 2, 3, 4]), st.integers(0, 7), st.sampled_from([None, 1000, 1001, 4000, 'bare']),
             st.lists(_op, min_size=1, max_size=9), st.lists(st.sampled_from('DA'), max_size=18), st.booleans())
 
